@@ -605,3 +605,126 @@ pub fn raw_lzma2_decoder_reset() {
     vcover!(true, "end_reached");
     forget(dec);
 }
+
+/// Two chunks: an uncompressed chunk (control CT, K bytes) followed by an LZMA chunk of CLASS
+/// with one abstract literal of L bytes, declared uncompressed size 1 + UD, then end + trailing.
+/// Pins `set_unpacked_size(unpacked + accum.len())` (the window keeps the first chunk unless
+/// CLASS == 3 resets the dictionary) and the order of the output.
+fn two_chunks<const CT: u8, const K: usize, const CLASS: usize, const L: usize, const UD: isize>() {
+    let mut t = Tape::<32>::new();
+    let raw: [u8; 4] = t.bytes::<4>();
+    let body: [u8; 12] = t.bytes::<12>();
+    let mut f = [0u8; 40];
+    let mut n = 0usize;
+    f[n] = CT;
+    f[n + 1] = 0;
+    f[n + 2] = (K - 1) as u8;
+    n += 3;
+    let mut i = 0;
+    while i < K {
+        f[n] = raw[i];
+        n += 1;
+        i += 1;
+    }
+    f[n] = 0x80 | ((CLASS as u8) << 5);
+    f[n + 1] = 0;
+    f[n + 2] = (UD) as u8; // declared uncompressed size - 1
+    f[n + 3] = 0;
+    f[n + 4] = (5 + L - 1) as u8;
+    n += 5;
+    if CLASS >= 2 {
+        f[n] = 0x5D;
+        n += 1;
+    }
+    let mut j = 0;
+    while j < 5 + L {
+        f[n] = body[j];
+        n += 1;
+        j += 1;
+    }
+    f[n] = 0;
+    let end_at = n;
+    f[n + 1] = 0xEE;
+    n += 2;
+    let mut dec = mk_decoder([script(L, K_LIT), script(20, K_LIT), script(20, K_LIT), script(20, K_LIT)]);
+    let mut rd = ArrReader::<40>::new(f, n);
+    let mut sink = RecSink::<8>::new();
+    let r = dec.decompress(&mut rd, &mut sink);
+    let ok = r.is_ok();
+    forget(r);
+    vassert!(ok == (UD == 0), "lzma2: a compressed chunk after other chunks is accepted iff it produces exactly its own declared size (target = bytes already in the window + declared size)");
+    if ok {
+        vassert!(sink.len == K + 1, "lzma2: output is the concatenation of the chunks");
+        let mut q = 0;
+        while q < K {
+            vassert!(sink.buf[q] == raw[q], "lzma2: uncompressed chunk first, verbatim");
+            q += 1;
+        }
+        vassert!(sink.buf[K] == body[5] ^ body[5 + L - 1], "lzma2: then the compressed chunk's bytes");
+        vassert!(rd.pos == end_at + 1, "lzma2: reader left just after the end control byte");
+        let resets = (if CT == 1 { 1 } else { 0 }) + (if CLASS == 3 { 1 } else { 0 });
+        vassert!(sink.writes == resets + 1, "lzma2: one flush per dictionary reset plus the final one");
+    }
+    vcover!(true, "end_reached");
+    forget(dec);
+}
+
+//@ harness props=C02,C11,C17 tier=quick unwind=6 unwindset=process_mode:5,decompress:5,default_read_exact:4,two_chunks:20 mem_gb=6 timeout=600 native=no
+//@ bound: LZMA2 stream: uncompressed chunk (control 1, 2 symbolic bytes) then LZMA chunk class 0 with one 2-byte abstract literal, declared size off by 0; end byte + trailing byte
+#[cfg_attr(kani, kani::proof)]
+#[cfg_attr(kani, kani::stub(std::fmt::format, crate::verif_common::stub_format))]
+#[cfg_attr(kani, kani::stub(std::io::Error::is_interrupted, crate::verif_common::stub_not_interrupted))]
+#[cfg_attr(kani, kani::stub(crate::decode::lzma::DecoderState::process_next_inner, crate::decode::lzma::verif_h::abs_symbol))]
+#[cfg_attr(kani, kani::stub(crate::decode::lzma::DecoderState::reset_state, crate::decode::lzma2::verif_h::observing_reset_state))]
+#[cfg_attr(kani, kani::stub(crate::decode::lzbuffer::LzAccumBuffer::from_stream, crate::decode::lzbuffer::verif_h::accum_from_stream_with_capacity))]
+pub fn lzma2_two_chunks_ct1_k2_c0_l2_ud0() {
+    two_chunks::<1, 2, 0, 2, 0>()
+}
+
+//@ harness props=C02,C11,C17 tier=quick unwind=6 unwindset=process_mode:5,decompress:5,default_read_exact:4,two_chunks:20 mem_gb=6 timeout=600 native=no
+//@ bound: LZMA2 stream: uncompressed chunk (control 2, 3 symbolic bytes) then LZMA chunk class 1 with one 1-byte abstract literal, declared size off by 0; end byte + trailing byte
+#[cfg_attr(kani, kani::proof)]
+#[cfg_attr(kani, kani::stub(std::fmt::format, crate::verif_common::stub_format))]
+#[cfg_attr(kani, kani::stub(std::io::Error::is_interrupted, crate::verif_common::stub_not_interrupted))]
+#[cfg_attr(kani, kani::stub(crate::decode::lzma::DecoderState::process_next_inner, crate::decode::lzma::verif_h::abs_symbol))]
+#[cfg_attr(kani, kani::stub(crate::decode::lzma::DecoderState::reset_state, crate::decode::lzma2::verif_h::observing_reset_state))]
+#[cfg_attr(kani, kani::stub(crate::decode::lzbuffer::LzAccumBuffer::from_stream, crate::decode::lzbuffer::verif_h::accum_from_stream_with_capacity))]
+pub fn lzma2_two_chunks_ct2_k3_c1_l1_ud0() {
+    two_chunks::<2, 3, 1, 1, 0>()
+}
+
+//@ harness props=C02,C11,C17 tier=quick unwind=6 unwindset=process_mode:5,decompress:5,default_read_exact:4,two_chunks:20 mem_gb=6 timeout=600 native=no
+//@ bound: LZMA2 stream: uncompressed chunk (control 1, 2 symbolic bytes) then LZMA chunk class 3 with one 2-byte abstract literal, declared size off by 0; end byte + trailing byte
+#[cfg_attr(kani, kani::proof)]
+#[cfg_attr(kani, kani::stub(std::fmt::format, crate::verif_common::stub_format))]
+#[cfg_attr(kani, kani::stub(std::io::Error::is_interrupted, crate::verif_common::stub_not_interrupted))]
+#[cfg_attr(kani, kani::stub(crate::decode::lzma::DecoderState::process_next_inner, crate::decode::lzma::verif_h::abs_symbol))]
+#[cfg_attr(kani, kani::stub(crate::decode::lzma::DecoderState::reset_state, crate::decode::lzma2::verif_h::observing_reset_state))]
+#[cfg_attr(kani, kani::stub(crate::decode::lzbuffer::LzAccumBuffer::from_stream, crate::decode::lzbuffer::verif_h::accum_from_stream_with_capacity))]
+pub fn lzma2_two_chunks_ct1_k2_c3_l2_ud0() {
+    two_chunks::<1, 2, 3, 2, 0>()
+}
+
+//@ harness props=C02,C11,C17 tier=quick unwind=6 unwindset=process_mode:5,decompress:5,default_read_exact:4,two_chunks:20 mem_gb=6 timeout=600 native=no
+//@ bound: LZMA2 stream: uncompressed chunk (control 1, 2 symbolic bytes) then LZMA chunk class 2 with one 2-byte abstract literal, declared size off by 0; end byte + trailing byte
+#[cfg_attr(kani, kani::proof)]
+#[cfg_attr(kani, kani::stub(std::fmt::format, crate::verif_common::stub_format))]
+#[cfg_attr(kani, kani::stub(std::io::Error::is_interrupted, crate::verif_common::stub_not_interrupted))]
+#[cfg_attr(kani, kani::stub(crate::decode::lzma::DecoderState::process_next_inner, crate::decode::lzma::verif_h::abs_symbol))]
+#[cfg_attr(kani, kani::stub(crate::decode::lzma::DecoderState::reset_state, crate::decode::lzma2::verif_h::observing_reset_state))]
+#[cfg_attr(kani, kani::stub(crate::decode::lzbuffer::LzAccumBuffer::from_stream, crate::decode::lzbuffer::verif_h::accum_from_stream_with_capacity))]
+pub fn lzma2_two_chunks_ct1_k2_c2_l2_ud0() {
+    two_chunks::<1, 2, 2, 2, 0>()
+}
+
+//@ harness props=C02,C11,C17 tier=quick unwind=6 unwindset=process_mode:5,decompress:5,default_read_exact:4,two_chunks:20 mem_gb=6 timeout=600 native=no
+//@ bound: LZMA2 stream: uncompressed chunk (control 1, 2 symbolic bytes) then LZMA chunk class 0 with one 2-byte abstract literal, declared size off by 1; end byte + trailing byte
+#[cfg_attr(kani, kani::proof)]
+#[cfg_attr(kani, kani::stub(std::fmt::format, crate::verif_common::stub_format))]
+#[cfg_attr(kani, kani::stub(std::io::Error::is_interrupted, crate::verif_common::stub_not_interrupted))]
+#[cfg_attr(kani, kani::stub(crate::decode::lzma::DecoderState::process_next_inner, crate::decode::lzma::verif_h::abs_symbol))]
+#[cfg_attr(kani, kani::stub(crate::decode::lzma::DecoderState::reset_state, crate::decode::lzma2::verif_h::observing_reset_state))]
+#[cfg_attr(kani, kani::stub(crate::decode::lzbuffer::LzAccumBuffer::from_stream, crate::decode::lzbuffer::verif_h::accum_from_stream_with_capacity))]
+pub fn lzma2_two_chunks_ct1_k2_c0_l2_ud1() {
+    two_chunks::<1, 2, 0, 2, 1>()
+}
